@@ -84,6 +84,15 @@ def replayMix (j : Json) : R Verdict := do
     k := k + 1
   let mixed := outs.filter (fun o => !ps.contains o)
   let tags := [s!"mix:parents={ps.length}", s!"mix:mixed={if mixed.length * 2 ≥ outs.length then "most" else if mixed.isEmpty then "none" else "some"}"]
+  if (fieldD j "variantRoot").getBool?.toOption == some true then
+    -- parents with pairwise different alternatives: below pressure 1 the alternative is not always the first parent's
+    let firstName := (ps.head?.bind varName).getD ""
+    let others := outs.filter (fun o => varName o != some firstName)
+    let tags2 := "mix:variant-root" :: tags
+    if sp != .one && others.isEmpty then
+      let w := s!"C17: recombining {ps.length} parents with different variant alternatives (selection pressure class {repr sp}) took the first parent's alternative in all {outs.length} attempts"
+      return { case, kind := "PROPFAIL", props := ["C17"], what := w, tags := tags2, size := outs.length, fails := [w], dis := dis.getD "" }
+    return { case, kind := if dis.isSome then "DISAGREE" else "ok", what := dis.getD "", tags := tags2, size := outs.length, dis := dis.getD "" }
   if ps.length ≥ 2 && mixed.isEmpty then
     let w := s!"C17: recombining {ps.length} parents that differ at every position with crossover probability 1 gave a copy of a parent in all {outs.length} attempts"
     return { case, kind := "PROPFAIL", props := ["C17"], what := w, tags, size := outs.length, fails := [w] }
